@@ -72,10 +72,15 @@ pub struct FcResult {
 /// Publishes the packages, builds a graph rooted at a module importing every
 /// export of the first package, and runs fast check.
 pub fn fast_check(pkgs: &[FcPackage], cache: Option<&RecordingFcCache>, ch: &Ch) -> Option<FcResult> {
+  fast_check_rooted(pkgs, 1, cache, ch)
+}
+
+/// `n_root_pkgs`: how many leading packages the root program imports directly.
+pub fn fast_check_rooted(pkgs: &[FcPackage], n_root_pkgs: usize, cache: Option<&RecordingFcCache>, ch: &Ch) -> Option<FcResult> {
   let sched = Sched::new(SchedMode::Immediate);
   let loader = ScriptedLoader::new(sched);
   let mut root = String::new();
-  for p in pkgs.iter().take(1) {
+  for p in pkgs.iter().take(n_root_pkgs) {
     for (name, _) in &p.exports {
       let sub = if name == "." { "".to_string() } else { format!("/{}", name.trim_start_matches("./")) };
       root.push_str(&format!("import \"jsr:{}@{}{sub}\";\n", p.name, p.version));
